@@ -784,7 +784,6 @@ def rec_envcopy(tier, seed, recs):
                 cases.append((ad.name, (lambda ad=ad: ad.make_env(ad.family("quick", 0)[0]))))
         except ImportError:
             pass
-    nthreads = torch.get_num_threads()
     for (name, params) in cases:
         for how in ("deepcopy", "pickle"):
             for advance in ((1,) if quick else (0, 1)):
@@ -821,7 +820,6 @@ def rec_envcopy(tier, seed, recs):
                     recs += records_for("envcopy", what, None, None, c, True, True, r1 and r2,
                                         ([[]] * B, [0] * B), ([[]] * B, [0] * B))
                 n += 1
-    torch.set_num_threads(nthreads)
     return n
 
 
@@ -982,6 +980,7 @@ def run(tier, seed):
     t0 = time.time()
     logging.disable(logging.WARNING)
     os.makedirs(OUTD, exist_ok=True)
+    torch.set_num_threads(1)        # tiny tensors only: intra-op threads just fight for the (shared) cores
     viol, samples, recs, notes = [], [], [], {}
     stats = {"states": 0, "transitions": 0, "replayed_steps": 0, "replayed_behaviours": 0, "coverage": {}, "per_env": {}}
     # ---- (1) + (2) the specification and its replay ----
